@@ -17,12 +17,12 @@ from ..proj import excname
 P = 1000
 # LAMMPS manual, "units" command: symbolic units per style (length, time, charge, mass, density)
 UNITS = {
-    'metal': dict(length='angstrom', velocity=('angstrom', 'ps'), charge='e', density=('g', 'cm', 3)),
-    'real': dict(length='angstrom', velocity=('angstrom', 'fs'), charge='e', density=('g', 'cm', 3)),
-    'si': dict(length='m', velocity=('m', 's'), charge='C', density=('kg', 'm', 3)),
-    'cgs': dict(length='cm', velocity=('cm', 's'), charge=None, density=('g', 'cm', 3)),
-    'nano': dict(length='nm', velocity=('nm', 'ns'), charge='e', density=('ag', 'nm', 3)),
-    'micro': dict(length='um', velocity=('um', 'us'), charge='pC', density=('pg', 'um', 3)),
+    'metal': dict(mass='amu', length='angstrom', velocity=('angstrom', 'ps'), charge='e', density=('g', 'cm', 3)),
+    'real': dict(mass='amu', length='angstrom', velocity=('angstrom', 'fs'), charge='e', density=('g', 'cm', 3)),
+    'si': dict(mass='kg', length='m', velocity=('m', 's'), charge='C', density=('kg', 'm', 3)),
+    'cgs': dict(mass='g', length='cm', velocity=('cm', 's'), charge=None, density=('g', 'cm', 3)),
+    'nano': dict(mass='ag', length='nm', velocity=('nm', 'ns'), charge='e', density=('ag', 'nm', 3)),
+    'micro': dict(mass='pg', length='um', velocity=('um', 'us'), charge='pC', density=('pg', 'um', 3)),
 }
 
 
@@ -95,7 +95,9 @@ def tok_info(info):
     return d
 
 
-def tok_dump(text, ps):
+def tok_dump(text, ps, lenmag=1.0):
+    """lenmag: the length scale of the written system in the file's unit (1e-10 for an atomic-scale system written in metres);
+    lengths are divided by it before they are turned into fixed-point integers"""
     lines = text.split('\n')
     hdr = {'natoms': -1, 'tri': False, 'flags': ['', '', ''], 'b': [], 'cols': []}
     rows = []
@@ -118,17 +120,18 @@ def tok_dump(text, ps):
                     vals = lines[i + 1 + k].split()
                     if len(vals) != (3 if hdr['tri'] else 2):
                         mal = 'box_bounds_line_has_the_wrong_number_of_values'
-                    hdr['b'].append([I(x) for x in vals])
+                    hdr['b'].append([I(float(x) / lenmag) for x in vals])
                 i += 4
             elif ln.startswith('ITEM: ATOMS'):
                 hdr['cols'] = ln.split()[2:]
                 sc = [c in ('xs', 'ys', 'zs') for c in hdr['cols']]
+                ln_ = [c in ('x', 'y', 'z', 'xu', 'yu', 'zu') for c in hdr['cols']]
                 for r in lines[i + 1:]:
                     t = r.split()
                     if not t:
                         continue
                     isint = [bool(re.match(r'^[+-]?\d+$', x)) for x in t]
-                    rows.append({'v': [int(x) if ii else (int(round(float(x) * ps)) if (k < len(sc) and sc[k]) else I(x)) for k, (x, ii) in enumerate(zip(t, isint))],
+                    rows.append({'v': [int(x) if ii else (int(round(float(x) * ps)) if (k < len(sc) and sc[k]) else I(float(x) / lenmag if (k < len(ln_) and ln_[k]) else x)) for k, (x, ii) in enumerate(zip(t, isint))],
                                  'isint': isint})
                 i = len(lines)
             elif not ln.strip():
@@ -194,7 +197,11 @@ def make_case(rng, i):
          'vel': (rng.integers(-16, 17, (n, 3)) / 8.0).tolist() if rng.random() < .5 else None,
          'q': (rng.integers(-8, 9, n) / 8.0).tolist(), 'mol': rng.integers(1, 4, n).tolist(),
          'diameter': (rng.integers(1, 9, n) / 8.0).tolist(), 'density': (rng.integers(8, 80, n) / 8.0).tolist(),
-         'omega': (rng.integers(-16, 17, (n, 3)) / 8.0).tolist()}
+         'omega': (rng.integers(-16, 17, (n, 3)) / 8.0).tolist(),
+         # columns of the less common atom styles (dipole, electron, ellipsoid, line, tri, body, wavepacket)
+         'volume': (rng.integers(1, 65, n) / 8.0).tolist(), 'mu': (rng.integers(-16, 17, (n, 3)) / 8.0).tolist(), 'espin': rng.integers(-1, 2, n).tolist(), 'eradius': (rng.integers(1, 17, n) / 8.0).tolist(),
+         'flag': rng.integers(0, 2, n).tolist(), 'amass': (rng.integers(8, 400, n) / 8.0).tolist(), 'etag': rng.integers(1, 5, n).tolist(),
+         'csre': (rng.integers(-8, 9, n) / 8.0).tolist(), 'csim': (rng.integers(-8, 9, n) / 8.0).tolist()}
     return d
 
 
@@ -210,6 +217,17 @@ def build_system(am, nu, d, style):
     props['m_id'] = np.array(d['mol'])
     props['diameter'] = np.array(d['diameter']) * fl
     props['density'] = np.array(d['density']) * factor(nu, 'density', style)
+    if fq is not None:
+        props['mu'] = np.array(d['mu']) * fq * fl
+    props['espin'] = np.array(d['espin'])
+    props['volume'] = np.array(d['volume']) * fl ** 3
+    props['eradius'] = np.array(d['eradius']) * fl
+    for nm in ('eflag', 'lflag', 'tflag', 'bflag'):
+        props[nm] = np.array(d['flag'])
+    props['mass'] = np.array(d['amass']) * factor(nu, 'mass', style)
+    props['e_id'] = np.array(d['etag'])
+    props['cs_re'] = np.array(d['csre'])
+    props['cs_im'] = np.array(d['csim'])
     atoms = am.Atoms(atype=d['atype'], pos=np.array(d['pos']) * fl, **props)
     box = am.Box(avect=np.array(d['a']) * fl, bvect=np.array(d['b']) * fl, cvect=np.array(d['c']) * fl, origin=np.array(d['o']) * fl)
     nt = max(d['atype'])
@@ -222,13 +240,24 @@ def sysrec(d, stylekey, stylename, units):
             'tilted': bool(d['b'][0] or d['c'][0] or d['c'][1]),
             'a': [I(x) for x in d['a']], 'b': [I(x) for x in d['b']], 'c': [I(x) for x in d['c']], 'o': [I(x) for x in d['o']], 'pbc': d['pbc'],
             'atoms': [[int(d['atype'][k]), int(d['mol'][k]), I(d['q'][k]), I(d['diameter'][k]), I(d['density'][k]), [I(x) for x in d['pos'][k]],
-                       [I(x) for x in d['rel'][k]]] for k in range(n)],
+                       [I(x) for x in d['rel'][k]], _others(d, stylekey, k)] for k in range(n)],
             'vel': [[I(x) for x in v] for v in d['vel']] if d['vel'] is not None else [],
             'omega': [[I(x) for x in v] for v in d['omega']], 'nvel': 7 if 'sphere' in stylename else 4}
 
 
+OTHERS = {'peri': lambda d, k: [I(d['volume'][k])], 'dipole': lambda d, k: [I(x) for x in d['mu'][k]], 'electron': lambda d, k: [int(d['espin'][k]), I(d['eradius'][k])],
+          'ellipsoid': lambda d, k: [int(d['flag'][k])], 'line': lambda d, k: [int(d['flag'][k])], 'tri': lambda d, k: [int(d['flag'][k])],
+          'body': lambda d, k: [int(d['flag'][k]), I(d['amass'][k])],
+          'wavepacket': lambda d, k: [int(d['espin'][k]), I(d['eradius'][k]), int(d['etag'][k]), I(d['csre'][k]), I(d['csim'][k])]}
+RARE = tuple(OTHERS)
+
+
+def _others(d, stylekey, k):
+    return OTHERS[stylekey](d, k) if stylekey in OTHERS else []
+
+
 STYLES = [('hybridsq', 'hybrid sphere charge'), ('atomic', 'atomic'), ('charge', 'charge'), ('molecular', 'molecular'), ('full', 'full'), ('sphere', 'sphere'), ('hybridq', 'hybrid charge'),
-          ('bond', 'bond'), ('angle', 'angle')]
+          ('bond', 'bond'), ('angle', 'angle')] + [(k_, k_) for k_ in ('peri', 'dipole', 'electron', 'ellipsoid', 'line', 'tri', 'body', 'wavepacket')]
 
 
 def run(ctx):
@@ -255,14 +284,15 @@ def run(ctx):
             else:
                 uc.reset_units(seed=1000 + i)
             skey, sname = STYLES[int(rng.integers(0, len(STYLES)))]
-            if UNITS[units]['charge'] is None and skey in ('charge', 'full', 'hybridq', 'hybridsq'):
+            if UNITS[units]['charge'] is None and skey in ('charge', 'full', 'hybridq', 'hybridsq', 'dipole', 'electron', 'wavepacket'):
                 skey, sname = 'atomic', 'atomic'
             ff = ffs[int(rng.integers(0, 4))]
             try:
-                s = build_system(am, nu, d, units)
+                dd_ = dict(d, vel=None) if skey in RARE else d        # the rare styles carry their own extra velocity columns: written without velocities
+                s = build_system(am, nu, dd_, units)
                 text, info = s.dump('atom_data', atom_style=sname, units=units, float_format=ff, safecopy=True)
                 recs.append({'ev': 'data', 'tag': 'data:%s:%s:%s:%d' % (sname, units, ff, i), 'lines': tok_data(text), 'info': tok_info(info),
-                             'sys': sysrec(d, skey, sname, units), 'slack': 1, 'p': 3})
+                             'sys': sysrec(dd_, skey, sname, units), 'slack': 1, 'p': 3})
             except Exception as e:
                 ctx.violation('data file writer raised %s [%s,%s]' % (excname(e), sname, units), repr(e)[:300], {'style': sname, 'units': units})
             # dump file
@@ -271,9 +301,15 @@ def run(ctx):
                 scaled = bool(rng.random() < .4)
                 names = ['atom_id', 'atype', 'spos' if scaled else 'pos'] + (['velocity'] if d['vel'] is not None else []) + \
                         (['charge'] if UNITS[units]['charge'] is not None else [])
-                sd = build_system(am, nu, d, units)
-                text = sd.dump('atom_dump', lammps_units=dunits, prop_name=names, float_format='%.6f' if ff == '%.13f' else ff)
-                hdr, rows, mal = tok_dump(text, 10000)
+                # half of the files in the macroscopic unit styles hold an ATOMIC-scale system (1e-10 m, 1e-8 cm, 1e-4 um): tiny numbers
+                # in the file's unit, written in exponent format
+                lenmag = {'si': 1e-10, 'cgs': 1e-8, 'micro': 1e-4}.get(units, 1.0) if rng.random() < .5 else 1.0
+                dd_ = d if lenmag == 1.0 else dict(d, a=[x * lenmag for x in d['a']], b=[x * lenmag for x in d['b']], c=[x * lenmag for x in d['c']],
+                                                   o=[x * lenmag for x in d['o']], pos=(np.array(d['pos']) * lenmag).tolist())
+                sd = build_system(am, nu, dd_, units)
+                dff = ('%.6f' if ff == '%.13f' else ff) if lenmag == 1.0 else '%.13e'
+                text = sd.dump('atom_dump', lammps_units=dunits, prop_name=names, float_format=dff)
+                hdr, rows, mal = tok_dump(text, 10000, lenmag)
                 recs.append({'ev': 'dump', 'tag': 'dump:%s:%s:%d' % (dunits, 'xs' if scaled else 'x', i), 'hdr': hdr, 'rows': rows, 'malformed': mal,
                              'sys': sysrec(d, 'atomic', 'atomic', units), 'slack': 1 if ff != '%.3f' or not scaled else 1, 'ps': 10000})
             except Exception as e:
